@@ -272,8 +272,9 @@ impl Server {
             return;
         }
 
-        if (handshake.max_receive_alloc as usize) < self.config.endpoint_config.max_packet_size {
-            // This connection may stall
+        if (handshake.max_receive_alloc as usize) < self.config.endpoint_config.max_packet_size || handshake.max_receive_rate == 0 {
+            // This connection may stall (a receive rate of zero is not a valid endpoint
+            // configuration either)
             let reply = frame::Frame::HandshakeErrorFrame(frame::HandshakeErrorFrame {
                 nonce_ack: handshake.nonce,
                 error: frame::HandshakeErrorType::Config,
